@@ -1,10 +1,12 @@
 (* C03 — CDecay yields the exact charge conjugate of the referenced decay table.
    Model: Dec/Post.v (add_cc / conj_table: the Lark visitor with its write-back into the shared
    ChargeConj dictionary, daughters line by line then the mother).  The database conjugation is the
-   regenerated table of C04 (cc).  Statement-list level; front end as C01 (partial). *)
+   regenerated table of C04 (cc).  Statement-list level, then lifted to texts (C03_text_level over Dec/Whole.v); the front-end
+   model is tied to Lark by correspondence, as for C01/C02. *)
 From Coq Require Import String List Bool ZArith QArith Arith.
 From DL Require Import Lib.Val Lib.PyDict Decay.Conj Decay.ConjProofs Decay.GenTables Dec.Tables Dec.Syntax Dec.Post
-  Dec.ConjTableProofs.
+  Dec.ConjTableProofs
+  Dec.Layout Dec.ItemParser Dec.FrontEnd Dec.LayoutProofs Dec.ItemParserProofs Dec.FrontEndProofs Dec.Whole Gen.GenLayout.
 Import ListNotations.
 Close Scope Q_scope.
 Open Scope string_scope.
@@ -71,3 +73,31 @@ Proof.
   - repeat constructor; simpl; intuition discriminate.
   - intros n [<-|[<-|[]]]; split; try reflexivity; intros H; apply smem_in in H; vm_compute in H; discriminate.
 Qed.
+
+(* the same about texts: s is any spelling of any layout of the file f whose ChargeConj statements are well formed.  What the
+   text is read to with charge-conjugate decays enabled is what it is read to with them disabled (every table of which is
+   therefore left untouched) followed by one conjugated table per CDecay that has a source and no Decay block of its own. *)
+Theorem C03_text_level : forall sc f its s T,
+  file_items (lc_kind gen_cfg) (lc_alts gen_cfg) f its -> spell (lc_label gen_cfg) (lc_ws gen_cfg) its s ->
+  wf_pairs (ccdefs_of f) ->
+  parse_dec_text cc sc true s = Some (inl T) ->
+  exists T1, parse_dec_text cc sc false s = Some (inl T1) /\
+    (Forall (fun t => nonwrap (table_labels t) /\ sc (fst t) <> Some true) (cc_sources cc (ccdefs_of f) (cdecays_of f) T1) ->
+     T = (T1 ++ map (fun t => (cj cc (ccdefs_of f) (fst t), map (cline cc (ccdefs_of f)) (snd t)))
+                    (cc_sources cc (ccdefs_of f) (cdecays_of f) T1))%list).
+Proof.
+  intros sc f its s T F Sp Hwf H.
+  rewrite (parse_dec_text_layout cc sc true f its s F Sp) in H. rewrite (parse_dec_text_layout cc sc false f its s F Sp).
+  unfold parse_post in *. destruct (mapE _ (dedupe [] (raw_decays f))) as [T0|]; [|discriminate].
+  injection H as <-. eexists. split; [reflexivity|]. intros Hs. apply C03_cdecay_tables; assumption.
+Qed.
+Print Assumptions C03_text_level.
+
+Example C03_text_example :
+  let nl := String LF "" in
+  option_map vpost (parse_dec_text cc (fun _ => None) true
+    ("Alias MyD D0" ++ nl ++ "Alias MyDbar anti-D0" ++ nl ++ "ChargeConj MyDbar MyD" ++ nl ++
+     "Decay MyD" ++ nl ++ "0.5 K- pi+ MyX pi0 PHOTOS PHSP;" ++ nl ++ "Enddecay" ++ nl ++ "CDecay MyDbar" ++ nl))
+  = Some (vtables [("MyD", [{| l_bf := 1#2; l_fs := ["K-"; "pi+"; "MyX"; "pi0"]; l_photos := true; l_model := "PHSP"; l_params := None |}]);
+                   ("MyDbar", [{| l_bf := 1#2; l_fs := ["K+"; "pi-"; "ChargeConj(MyX)"; "pi0"]; l_photos := true; l_model := "PHSP"; l_params := None |}])]).
+Proof. vm_compute. reflexivity. Qed.
